@@ -23,6 +23,8 @@ local _lua_reset_env = _lua_reset_env
 local _cached_mod = _cached_mod
 local _new_loader = _new_loader
 local _save_mod = _save_mod
+local _push_loaded_modules = _push_loaded_modules
+local _pop_loaded_modules = _pop_loaded_modules
 
 -- The bookkeeping of a frame's argument table is stored in the table itself
 -- under keys that no argument name can be equal to (argument names are
@@ -179,7 +181,10 @@ local function _lua_invoke_inner(mod_name, fn_name, frame, page_title)
         prepare_frame_args(pframe)
     end
 
-    local mod_env = _mw_clone(_python_top_env() or _G)
+    -- Every invocation starts from a copy of the pristine environment, also
+    -- one nested inside another invocation: the globals and library copies of
+    -- the invocation around it are not its business.
+    local mod_env = _mw_clone(_G)
     _python_append_env(mod_env)
 
     -- Load the module.  Note that the initializations above must be done before
@@ -228,6 +233,9 @@ end
 -- anything of the module runs (also its loading) and is released on every
 -- way out, including errors raised by the inner function itself.
 local function _lua_invoke(mod_name, fn_name, frame, page_title, timeout)
+    -- (outside the armed time limit: an abort in between would leave the
+    -- module cache half updated)
+    local saved_modules = _push_loaded_modules()
     local depth = _lua_set_timeout(timeout)
     local ok, st, v
     -- Once the limit is exceeded the hook raises its error again every 1000
@@ -245,6 +253,7 @@ local function _lua_invoke(mod_name, fn_name, frame, page_title, timeout)
         _lua_clear_timeout_hook(depth)
         ok, st = false, err
     end
+    _pop_loaded_modules(saved_modules)
     if not ok then
         error(st, 0)
     end
@@ -318,5 +327,7 @@ _G["_lua_set_python_loader"] = nil
 _G["_cached_mod"] = nil
 _G["_new_loader"] = nil
 _G["_save_mod"] = nil
+_G["_push_loaded_modules"] = nil
+_G["_pop_loaded_modules"] = nil
 
 return { _lua_set_functions, _lua_invoke, _lua_reset_env }
